@@ -262,6 +262,8 @@ breaking('EX1-bell-stale-arm', {'C18': 'EX1'}, edit=[(M + 'state/_internal.py', 
 breaking('MC3-new-memo-gellmann', {'C16': 'MC3', 'C06': 'MC3'}, edit=[(M + 'gellmann.py', "def gellmann_matrix(i:int, j:int, d:int):", "@functools.lru_cache\ndef gellmann_matrix(i:int, j:int, d:int):")])
 breaking('MC3-new-memo-qec', {'C19': 'MC3', 'C04': 'MC3'}, edit=[(M + 'qec/_internal.py', "def make_asymmetric_error_set(num_qubit, distance, weight_z=1):", "@functools.lru_cache\ndef make_asymmetric_error_set(num_qubit, distance, weight_z=1):")])
 preserving('mc3-memo-of-int', ['C16'], [(M + 'gellmann.py', "def gellmann_matrix(i:int, j:int, d:int):", "@functools.lru_cache\ndef _gm_count(d):\n    return int(d*d)\n\n\ndef gellmann_matrix(i:int, j:int, d:int):")])
+breaking('PU1-inplace-normalise-input-random', {'C10': 'PU1'}, edit=[(M + 'random/_internal.py', "def rand_channel_matrix_space(dim_in, num_term, seed=None):\n    np_rng = get_numpy_rng(seed)", "def _normalise_rows(np0):\n    np0 /= np.linalg.norm(np0, axis=-1, keepdims=True)\n    return np0\n\n\ndef rand_channel_matrix_space(dim_in, num_term, seed=None):\n    np_rng = get_numpy_rng(seed)")])
+breaking('PU1-inplace-hermitise-input-utils', {'C12': 'PU1', 'C17': 'PU1', 'C05': 'PU1'}, edit=[(M + 'utils.py', "def partial_trace(rho:np.ndarray, dim:tuple[int], keep_index:set[int]):", "def _hermitise(rho):\n    rho += rho.T.conj()\n    rho /= 2\n    return rho\n\n\ndef partial_trace(rho:np.ndarray, dim:tuple[int], keep_index:set[int]):")])
 # ---- textual breaking edits, one per rule family
 breaking('S3-ambient-draw', {'C10': 'S3'}, edit=[(M + 'random/_internal.py', "tmp0 = np_rng.normal(size=(N0,dim))\n    tmp0 = tmp0 / np.linalg.norm", "tmp0 = np.random.normal(size=(N0,dim))\n    tmp0 = tmp0 / np.linalg.norm")])
 breaking('S4-unseeded-receiver', {'C10': 'S4'}, edit=[(M + 'random/_internal.py', "    np_rng = get_numpy_rng(seed)\n    assert dim>=2\n    tmp0 = np.triu(", "    np_rng = get_numpy_rng(seed)\n    assert dim>=2\n    np_rng = np.random.default_rng(dim)\n    tmp0 = np.triu(")])
